@@ -83,7 +83,8 @@ pub fn check(ctx: &mut Ctx, prop: &str, ev: &Eval) {
                     ctx.finding("parse-agreement", &sg, "format_code returned Ok for text the checker's parser rejects", case_json(&ev.id, &ev.src, cfg, ev.range));
                 }
                 Err(FmtErr::Panic(m)) => {
-                    let sg = format!("panic:{}", panic_site(m));
+                    let sg = fmt::panic_signature(m);
+                    let sg = if sg == "panic:in-full_moon-parser" { format!("{sg}:invalid-input") } else { sg };
                     ctx.finding("panic", &sg, m, case_json(&ev.id, &ev.src, cfg, ev.range));
                 }
                 Err(_) => ctx.count("invalid_input.rejected"),
@@ -96,7 +97,8 @@ pub fn check(ctx: &mut Ctx, prop: &str, ev: &Eval) {
         Ok(t) => t.clone(),
         Err(FmtErr::Panic(m)) => {
             if prop == "C07" {
-                let sg = format!("panic:{}", panic_site(m));
+                let sg = fmt::panic_signature(m);
+                let sg = if sg == "panic:in-full_moon-parser" { format!("{sg}:valid-input") } else { sg };
                 ctx.finding("panic", &sg, m, case_json(&ev.id, &ev.src, cfg, ev.range));
             } else {
                 ctx.inconclusive("formatter panicked (C07's business)");
@@ -257,12 +259,6 @@ pub fn check(ctx: &mut Ctx, prop: &str, ev: &Eval) {
 /// see DESIGN C07): generous polynomial.
 pub fn tick_budget(ntok: u64) -> u64 {
     20_000 + 400 * ntok + ntok * ntok
-}
-
-fn panic_site(msg: &str) -> String {
-    // a stable short form of the panic message (numbers removed)
-    let s: String = msg.chars().filter(|c| !c.is_ascii_digit()).take(60).collect();
-    s.replace(' ', "_")
 }
 
 pub fn clip(s: &str, n: usize) -> String {
